@@ -210,8 +210,12 @@ func Generate(root, src string, l Layout) error {
 		}
 	}
 	// ---- MPD
-	nominal := func(ts uint32) uint64 { // nominal $Number$ duration: that of the first video segment in the track's timescale
-		return vsegs[0].d * uint64(ts) / uint64(l.VideoTS)
+	nominal := func(ts uint32) uint64 { // nominal $Number$ duration: the average video segment duration in the track's timescale
+		var tot uint64
+		for _, s := range vsegs {
+			tot += s.d
+		}
+		return tot / uint64(len(vsegs)) * uint64(ts) / uint64(l.VideoTS)
 	}
 	tmpl := func(ts uint32, segs []segT) string {
 		if l.UseTime {
